@@ -135,6 +135,7 @@ let parse_op toks : string * op * string =
     let (es, rest) = bs (int_of_string nb) rest in
     let (ipbs, rest) = take_list rest in
     ("calc", OCalc (z u, es, ipbs), L.hd rest)
+  | "handover" :: b :: d :: dint :: res :: [] -> ("handover", OHandOver (z b, z d, z dint), res)
   | "setprice" :: a :: "-" :: res :: [] -> ("setprice", OSetPrice (z a, None), res)
   | "setprice" :: a :: p :: res :: [] -> ("setprice", OSetPrice (z a, Some (z p)), res)
   | _ -> failwith ("bad op: " ^ S.concat " " toks)
@@ -152,6 +153,7 @@ let run (path : string) =
   let step = ref 0 in
   let dead = ref false in               (* model and implementation diverged: stop diffing this case *)
   let interesting = ref false in
+  let tainted = ref false in            (* a message of known-finding class 2 succeeded earlier in this case *)
   let sig_ = Buffer.create 1024 in
   let end_case () =
     if !case <> "" then begin
@@ -172,8 +174,17 @@ let run (path : string) =
     end in
   let check_props kind o res =
     let obs = !cur_obs and pre = !pre_obs in
+    if res = "ok" && kf_C08_2 pre o then begin tainted := true; bump "kf_C08_2:hand_over_deletes_live_lend_record" end;
+    if kind = "handover" && res = "ok" then begin
+      (match o with
+       | OHandOver (j, _, _) ->
+         (match zget pre.borrows j, zget obs.borrows j with
+          | Some b0, Some b1 -> if (not b0.b_liq) && b1.b_liq then begin bump "handover:handed_over"; interesting := true end else bump "handover:not_liquidatable"
+          | _ -> ())
+       | _ -> ())
+    end;
     if not (holds_C08_lend obs) then
-      predfail ~case:!case ~step:!step ~pred:"holds_C08_lend" ~kf:"none" ~detail:("after_" ^ kind);
+      predfail ~case:!case ~step:!step ~pred:"holds_C08_lend" ~kf:(if !tainted then "kf_C08_2" else "none") ~detail:("after_" ^ kind);
     if not (holds_C08_borrow !cfg obs) then
       predfail ~case:!case ~step:!step ~pred:"holds_C08_borrow" ~kf:"none" ~detail:("after_" ^ kind);
     if not (holds_C08_avail obs) then
@@ -226,7 +237,7 @@ let run (path : string) =
       | "case" :: id :: _ ->
         end_case ();
         case := id; model := empty_state; pre_obs := empty_state; cur_obs := empty_state; pending := None;
-        have_init := false; step := 0; dead := false; interesting := false; Buffer.clear sig_
+        have_init := false; step := 0; dead := false; interesting := false; tainted := false; Buffer.clear sig_
       | "op" :: dt :: rest ->
         incr step; incr steps;
         let (kind, o, res) = parse_op rest in
